@@ -83,6 +83,14 @@ def build_ops(repo, seed):
         texts2.append(ctab.render_v2000(ions, V2Style(encoding="codes", dt_symbols=True), rng))
         plain = Mol([Atom("N", 1, 0, 0, 1.0, 0.0, 0.0), Atom("C", 0, 2, 0, 3.0, 0.0, 0.0), Atom("O", -1, 0, 0, 4.0, 0.0, 0.0)], [(0, 1, 1), (1, 2, 1)], "plain")
         texts2.append(ctab.render_v2000(plain, V2Style(encoding="codes"), rng))
+    for k in range(4):
+        m = G.random_organic(rng, 3, 10)
+        for a in m.atoms:
+            a.x, a.y, a.z = round(a.x, 4), round(a.y, 4), round(a.z, 4)
+            a.mass = min(a.mass, 999)
+        m.bonds = [(i, j, t if 1 <= t <= 8 else 1) for i, j, t in m.bonds]
+        if ctab.v2000_representable(m):
+            texts2.append(ctab.render_v2000(m, V2Style(encoding="lines", two_line_records=0.8, unrelated=0.3), rng))
     files = common.corpus_files(repo)
     for f in rng.sample(files, min(10, len(files))):
         t = open(f).read()
@@ -164,7 +172,7 @@ def run(ctx):
         hs = arg if not arg.startswith("r") else str(random.Random(f"{ctx.seed}/{arg}").randrange(1, 2 ** 32))
         # every second configuration also changes interpreter settings a host application may use: -OO (asserts and docstrings stripped),
         # the int<->str digit limit switched off
-        extra = {"PYTHONOPTIMIZE": "2", "PYTHONINTMAXSTRDIGITS": "0"} if (ctx.shard % 2 == 1) else None
+        extra = {"PYTHONOPTIMIZE": "2", "PYTHONINTMAXSTRDIGITS": "0", "RV_LOGGING": "DEBUG"} if (ctx.shard % 2 == 1) else None
         if extra:
             ctx.count("cov_config_optimize_and_int_limit")
         t2 = runner(ctx, [ops_path, "table"], hs, extra_env=extra)
